@@ -17,18 +17,18 @@ field(RESP, "retries", "urllib3.util.retry.Retry")
 c = contract(f"{CONN}.request")
 c.assumed("http.client boundary: may write to the socket (ghost.phase becomes 1 = request possibly on the wire), may auto-connect, may raise anything")
 c.ghost("sends").ghost("req_timeout")
-c.requires("isinstance(ghost.sends, int)")
+c.requires("is_int(ghost.sends)")
 c.modifies("self.sock", "self._response_options", "self._has_connected_to_proxy", "self.is_verified", "self.proxy_is_verified", "ghost.sends", "ghost.req_timeout")
-c.ensures("ghost.sends == old(ghost.sends) + 1 and ghost.req_timeout is old(self.timeout)")
-c.raises("BaseException", ensures="ghost.sends == old(ghost.sends) + 1 and ghost.req_timeout is old(self.timeout)")
+c.ensures("is_int(ghost.sends) and ghost.sends == old(ghost.sends) + 1 and ghost.req_timeout is old(self.timeout)")
+c.raises("BaseException", ensures="is_int(ghost.sends) and ghost.sends == old(ghost.sends) + 1 and ghost.req_timeout is old(self.timeout)")
 
 c = contract(f"{CONN}.getresponse")
 c.assumed("http.client boundary: waits for and parses the response head with the socket timeout currently set on the connection; returns a fresh response; may raise anything; may close the connection")
 c.ghost("waits")
-c.requires("isinstance(ghost.waits, int)")
+c.requires("is_int(ghost.waits)")
 c.modifies("self.sock", "self._response_options", "self._has_connected_to_proxy", "ghost.waits")
-c.ensures("fresh(result) and isinstance(result, BaseHTTPResponse) and ghost.waits == old(ghost.waits) + 1")
-c.raises("BaseException", ensures="ghost.waits == old(ghost.waits) + 1")
+c.ensures("fresh(result) and isinstance(result, BaseHTTPResponse) and valid_response(result) and is_int(ghost.waits) and ghost.waits == old(ghost.waits) + 1")
+c.raises("BaseException", ensures="is_int(ghost.waits) and ghost.waits == old(ghost.waits) + 1")
 c.result_hint = RESP
 
 c = contract("urllib3.connection._wrap_proxy_error")
@@ -44,7 +44,7 @@ c.assumed("extension point (base: no-op; HTTPS: conn.connect() + InsecureRequest
 c.types(conn=CONN)
 c.modifies("conn.sock", "conn._has_connected_to_proxy", "conn.is_verified", "conn.proxy_is_verified")
 c.ensures("True")
-c.raises("BaseException")
+c.raises("BaseException", ensures="boundary_exception(exc)")
 
 # ------------------------------------------------------------------ C19: _get_timeout / _raise_timeout
 c = contract(f"{P}._get_timeout", prop="C19")
@@ -75,18 +75,24 @@ c.types(conn=CONN, method="str", url="str", body="any", headers="any", retries="
 c.ghost("clock", "float").ghost("sends").ghost("waits").ghost("req_timeout")
 c.requires("isinstance(self.timeout, Timeout) and valid_timeout(self.timeout) and self.timeout._start_connect is None")
 c.requires("implies(isinstance(timeout, Timeout), valid_timeout(timeout))")
-c.requires("isinstance(ghost.clock, float) and isinstance(ghost.sends, int) and isinstance(ghost.waits, int)")
-c.requires("isinstance(self.num_requests, int)")
-c.requires("conn.proxy is None or isinstance(conn.proxy, Url)")
+c.requires("isinstance(ghost.clock, float) and is_int(ghost.sends) and is_int(ghost.waits)")
+c.ensures("isinstance(ghost.clock, float) and is_int(ghost.sends) and is_int(ghost.waits)", "ghost-typed")
+c.exc_ensures("isinstance(ghost.clock, float) and is_int(ghost.sends) and is_int(ghost.waits)", "ghost-typed")
+c.requires("is_int(self.num_requests)")
+c.requires("valid_conn(conn)")
 c.requires("implies(retries is not None, valid_retry(retries))")
 c.modifies("self.num_requests", "conn.timeout", "conn.sock", "conn._response_options", "conn._has_connected_to_proxy", "conn.is_verified",
            "conn.proxy_is_verified", "ghost.clock", "ghost.sends", "ghost.waits", "ghost.req_timeout")
 c.raises_any = True
 # the pool's own Timeout object is never written: one request's clock never influences another's (frame: self.timeout.* not in modifies)
-c.ensures("fresh(result) and isinstance(result, BaseHTTPResponse)", "fresh-response")
+c.ensures("fresh(result) and isinstance(result, BaseHTTPResponse) and valid_response(result)", "fresh-response")
+c.ensures("is_int(self.num_requests)", "counter-typed")
+c.exc_ensures("is_int(self.num_requests)", "counter-typed")
 c.ensures("result._connection is response_conn and result._pool is self and result._retries is retries", "response-wired-to-pool")
-c.ensures("ghost.sends == old(ghost.sends) + 1 and ghost.waits == old(ghost.waits) + 1", "one-request-one-wait")
+c.ensures("ghost.sends == old(ghost.sends) + 1 and is_int(ghost.waits) and ghost.waits == old(ghost.waits) + 1", "one-request-one-wait")
 c.exc_ensures("ghost.sends == old(ghost.sends) or ghost.sends == old(ghost.sends) + 1", "at-most-one-request-written")
+c.exc_ensures("boundary_exception(exc)", "only-boundary-shaped-exceptions")
+c.exc_ensures("implies(is_connect_class_b(exc), ghost.sends == old(ghost.sends))", "connect-class-errors-only-before-anything-was-written")
 # C19 connect phase: the timeout in force while connecting/sending is min(connect, total) of the effective Timeout
 c.site_assert("HTTPConnectionPool._validate_conn", "same_num(conn.timeout, expected_connect_timeout(self, caller_timeout)) or"
               " (expected_connect_timeout(self, caller_timeout) is _DEFAULT_TIMEOUT and (conn.timeout is None or conn.timeout >= 0))", "connect-timeout=min(connect,total)")
@@ -101,3 +107,154 @@ c.site_assert("HTTPConnection.request", "isinstance(caller_timeout_obj._start_co
 c.site_assert("HTTPConnection.getresponse",
               "implies(self.sock is not None, response_wait_ok(self.timeout, effective_timeout(caller_self, caller_timeout), ghost.clock - caller_timeout_obj._start_connect))",
               "response-wait=min(read,total-elapsed),never-zero")
+
+# ================================================================== urlopen and its callees
+URL = "urllib3.util.url.Url"
+field(RESP, "headers", "urllib3._collections.HTTPHeaderDict")
+field(RESP, "_connection", None)
+field(P, "headers", "builtins.dict")
+field(P, "proxy_headers", "builtins.dict")
+
+# --- refine the boundary: which exception classes can come from the wire after something was written
+c = contract(f"{CONN}.request")
+c.raises_l.clear()
+c.raises("BaseException", ensures="ghost.req_timeout is old(self.timeout) and is_int(ghost.sends) and ghost.sends == old(ghost.sends) + (0 if is_connect_class_b(exc) else 1)"
+         " and boundary_exception(exc)")
+c = contract(f"{CONN}.getresponse")
+c.raises_l.clear()
+c.raises("BaseException", ensures="is_int(ghost.waits) and ghost.waits == old(ghost.waits) + 1 and not is_connect_class_b(exc) and boundary_exception(exc)")
+
+c = contract(f"{CONN}.close")
+c.assumed("HTTPConnection.close: http.client close (assumed not to raise) then resets sock and the per-connection proxy/verification state")
+c.modifies("self.sock", "self.is_verified", "self.proxy_is_verified", "self._has_connected_to_proxy", "self._response_options",
+           "self._tunnel_host", "self._tunnel_port", "self._tunnel_scheme")
+c.ensures("self.sock is None and self._has_connected_to_proxy is False")
+
+c = contract(f"{P}.is_same_host")
+c.assumed("pure predicate over the pool's (scheme, host, port) and the URL (verified under C06)")
+c.types(url="str")
+c.modifies()
+c.ensures("isinstance(result, bool)")
+c.raises("LocationParseError")
+
+c = contract("urllib3.util.request.set_file_position")
+c.assumed("records/rewinds the body position (verified under C11): returns pos if given, else tell() or the failed-tell marker or None; may raise UnrewindableBodyError")
+c.types(body="any", pos="any")
+c.modifies()
+c.ensures("implies(pos is not None, result is pos)")
+c.raises("UnrewindableBodyError")
+
+c = contract(f"{P}._prepare_proxy")
+c.assumed("extension point (base: no-op; HTTPS: set_tunnel + connect): may connect, may raise anything")
+c.types(conn=CONN)
+c.modifies("conn.sock", "conn._has_connected_to_proxy", "conn.is_verified", "conn.proxy_is_verified", "conn._tunnel_host", "conn._tunnel_port", "conn._tunnel_scheme")
+c.ensures("True")
+c.raises("BaseException", ensures="boundary_exception(exc)")
+
+c = contract("sys.exc_info").params().assumed("opaque (type, value, traceback) triple")
+c.modifies()
+c.ensures("isinstance(result, tuple) and len(result) == 3")
+
+c = contract(f"{P}._get_conn", prop="C01")
+c.mode = "assumed"      # used at this contract by urlopen; its own body is verified under the variant below
+c.types(timeout="any")
+c.ghost("out").ghost("getconn_fault").ghost("checkouts")
+c.requires("is_int(ghost.out) and is_int(ghost.checkouts)")
+c.modifies("ghost.out", "ghost.checkouts", "self.num_connections")
+c.ensures("isinstance(result, HTTPConnection) and valid_conn(result) and is_int(ghost.out) and ghost.out == old(ghost.out) + 1"
+          " and is_int(ghost.checkouts) and ghost.checkouts == old(ghost.checkouts) + 1", "lease-taken")
+c.exc_ensures("is_int(ghost.checkouts) and (ghost.checkouts == old(ghost.checkouts) + (ghost.out - old(ghost.out)))", "checkouts-follow-leases")
+c.raises("ClosedPoolError", ensures="is_int(ghost.out) and ghost.out == old(ghost.out) and self.pool is None")
+c.raises("EmptyPoolError", ensures="is_int(ghost.out) and ghost.out == old(ghost.out)")
+c.raises("BaseException", when="ghost.getconn_fault == 1", ensures="is_int(ghost.out) and ghost.out == old(ghost.out) and not isinstance(exc, (HTTPError, OSError, HTTPException))")
+c.raises("BaseException", when="ghost.getconn_fault == 2", ensures="is_int(ghost.out) and ghost.out == old(ghost.out) + 1 and not isinstance(exc, (HTTPError, OSError, HTTPException))")
+c.result_hint = CONN
+
+c = contract(f"{P}._put_conn", prop="C01")
+c.mode = "assumed"
+c.types(conn="opt:HTTPConnection")
+c.ghost("out")
+c.requires("is_int(ghost.out)")
+c.modifies("ghost.out", "conn.sock", "conn.is_verified", "conn.proxy_is_verified", "conn._has_connected_to_proxy", "conn._response_options",
+           "conn._tunnel_host", "conn._tunnel_port", "conn._tunnel_scheme")
+c.ensures("is_int(ghost.out) and implies(self.pool is not None, ghost.out == old(ghost.out) - 1)", "slot-returned-or-connection-discarded")
+
+c = contract(f"{RESP}.drain_conn")
+c.assumed("reads the rest of the body swallowing I/O errors; the connection back-reference is released (HTTPResponse.drain_conn/_error_catcher/release_conn, verified under C01 response side)")
+c.ghost("out")
+c.modifies("self._connection", "self._fp", "self._body", "ghost.out")
+c.ensures("self._connection is None and is_int(ghost.out) and implies(self._pool.pool is not None, ghost.out == old(ghost.out) - (0 if old(self._connection) is None else 1))")
+c.raises("BaseException", ensures="self._connection is None and is_int(ghost.out) and implies(self._pool.pool is not None, ghost.out == old(ghost.out) - (0 if old(self._connection) is None else 1))"
+         " and not isinstance(exc, Exception)")
+
+c = contract("urllib3._collections.HTTPHeaderDict._prepare_for_method_change")
+c.assumed("drops the content headers in place and returns self (verified under C05)")
+c.modifies("self._container")
+c.ensures("result is self")
+
+c = contract("urllib3._collections.HTTPHeaderDict")
+c.assumed("HTTPHeaderDict(headers): a fresh header multimap (C16)")
+c.params("headers")
+c.modifies()
+c.ensures("fresh(result) and isinstance(result, HTTPHeaderDict)")
+c.result_hint = "urllib3._collections.HTTPHeaderDict"
+
+c = contract("urllib3.util.proxy.connection_requires_http_tunnel", prop="C09")
+c.types(proxy_url="opt:Url", proxy_config="opt:ProxyConfig", destination_scheme="any")
+c.requires("implies(proxy_url is not None, proxy_url.scheme is None or isinstance(proxy_url.scheme, str))")
+c.modifies()
+c.ensures("isinstance(result, bool)", "bool")
+c.ensures("result == tunnel_required(proxy_url, proxy_config, destination_scheme)", "truth-table")
+c.ensures("implies(proxy_url is None or destination_scheme == 'http', result is False)", "no-proxy-or-http-destination-never-tunnels")
+c.ensures("implies(proxy_url is not None and destination_scheme == 'https' and proxy_url.scheme != 'https', result is True)", "https-via-http-proxy-always-tunnels")
+
+# ------------------------------------------------------------------ urlopen
+c = contract(f"{P}.urlopen", prop="C01")
+c.props.update({"C04", "C03"})
+c.types(method="str", url="str", body="any", headers="opt:dict", retries="any", redirect="bool", assert_same_host="bool", timeout="any",
+        pool_timeout="any", release_conn="any", chunked="bool", body_pos="any", preload_content="bool", decode_content="bool")
+c.kwarg_keys = []
+for g in ("out", "sends", "waits", "req_timeout", "clock", "sleeps", "last_sleep", "getconn_fault", "checkouts"):
+    c.ghost(g)
+c.requires("is_int(ghost.out) and is_int(ghost.sends) and is_int(ghost.waits) and is_int(ghost.sleeps) and isinstance(ghost.clock, float) and is_int(ghost.checkouts)")
+c.ensures("is_int(ghost.out) and is_int(ghost.sends) and is_int(ghost.waits) and is_int(ghost.sleeps) and isinstance(ghost.clock, float) and is_int(ghost.checkouts)", "ghost-typed")
+c.exc_ensures("is_int(ghost.out) and is_int(ghost.sends) and is_int(ghost.waits) and is_int(ghost.sleeps) and isinstance(ghost.clock, float) and is_int(ghost.checkouts)", "ghost-typed")
+c.requires("isinstance(self.timeout, Timeout) and valid_timeout(self.timeout) and self.timeout._start_connect is None")
+c.requires("implies(isinstance(timeout, Timeout), valid_timeout(timeout))")
+c.requires("retries is None or retries is False or retries is True or isinstance(retries, (int, Retry))")
+c.requires("implies(isinstance(retries, Retry), valid_retry(retries))")
+c.requires("self.retries is None or self.retries is False or isinstance(self.retries, (int, Retry))")
+c.requires("implies(isinstance(self.retries, Retry), valid_retry(self.retries))")
+c.requires("isinstance(Retry.DEFAULT, Retry) and valid_retry(Retry.DEFAULT)")
+c.requires("isinstance(self.headers, dict) and isinstance(self.proxy_headers, dict)")
+c.requires("self.proxy is None or isinstance(self.proxy, Url)")
+c.requires("implies(self.proxy is not None, self.proxy.scheme is None or isinstance(self.proxy.scheme, str))")
+c.requires("is_int(self.num_requests)")
+c.requires("self.proxy_config is None or isinstance(self.proxy_config, ProxyConfig)")
+c.requires("release_conn is None or isinstance(release_conn, bool)")
+c.modifies("*")
+c.raises_any = True
+# C01: lease accounting on every exit
+c.ensures("isinstance(result, BaseHTTPResponse)", "returns-response")
+c.ensures("implies(self.pool is not None, ghost.out == old(ghost.out) + (0 if result._connection is None else 1))", "lease-balance:response-holds-the-only-outstanding-lease")
+c.exc_ensures("implies(self.pool is not None, ghost.out == old(ghost.out))", "lease-balance:no-lease-outstanding-after-an-exception")
+# C01: failures surface as urllib3 exceptions, never raw socket/ssl/http.client errors
+c.exc_ensures("implies(isinstance(exc, (OSError, HTTPException)), isinstance(exc, HTTPError))", "no-raw-socket-ssl-httpclient-error")
+# C04: attempts on the wire are bounded by 1 + total
+c.ensures("implies(isinstance(retries, Retry) and is_count(retries.total), ghost.sends <= old(ghost.sends) + 1 + retries.total)", "attempts<=1+total")
+c.exc_ensures("implies(isinstance(retries, Retry) and is_count(retries.total), ghost.sends <= old(ghost.sends) + 1 + retries.total)", "attempts<=1+total")
+c.ensures("ghost.sends >= old(ghost.sends)", "sends-monotone")
+c.exc_ensures("ghost.sends >= old(ghost.sends)", "sends-monotone")
+# C04: a method outside allowed_methods is never re-sent after the request may have reached the server
+c.site_assert("HTTPConnectionPool.urlopen",
+              "implies(caller_err is not None and ghost.sends > old(ghost.sends), method_retryable(retries, method))",
+              "no-resend-of-non-idempotent-after-it-may-have-reached-the-server")
+
+# C01: a slot is only put back by the call that took it (or the pool is closed and there is nothing to put)
+c.site_assert("HTTPConnectionPool._put_conn",
+              "ghost.out >= old(ghost.out) + 1 or self.pool is None",
+              "put-only-what-was-checked-out")
+
+c.tag("C01", "lease-balance:response-holds-the-only-outstanding-lease", "lease-balance:no-lease-outstanding-after-an-exception",
+      "no-raw-socket-ssl-httpclient-error", "put-only-what-was-checked-out", "returns-response")
+c.tag("C04", "attempts<=1+total", "sends-monotone", "no-resend-of-non-idempotent-after-it-may-have-reached-the-server")
